@@ -35,6 +35,18 @@ Theorem C09_roundtrip : forall num repr_text dom, dom_ok dom -> num_ok num -> fo
                same_obs pb'' pb.
 Proof. exact C09_roundtrip_lemma. Qed.
 
+(* the same for the tree with ([gt] = true) or without ([gt] = false: the theorem above) the repair proposed for D19d
+   (proposed_fixes/D19d.diff, Model.Problem.cfg_gt): the additional type check of numeric-goal arguments passes again on
+   the exported text *)
+Theorem C09_roundtrip_any_goal_check : forall num repr_text dom, dom_ok dom -> num_ok num -> forall gt e sp pb,
+  read_problem num e = Some sp -> repr_ok num repr_text sp -> safe_repeats sp = true -> sp_name sp <> "" ->
+  parse_problem (cfg_gt gt) num dom e = Ok pb ->
+  exists pb', parse_problem (cfg_gt gt) num dom (export_problem repr_text None (d_name dom) pb) = Ok pb' /\
+              same_obs pb' pb /\
+  exists pb'', parse_problem (cfg_gt gt) num dom (export_problem repr_text None (d_name dom) pb') = Ok pb'' /\
+               same_obs pb'' pb.
+Proof. exact C09_roundtrip_t_lemma. Qed.
+
 Theorem C09_same_obs_equiv : forall a b, same_obs a b -> pdump_equiv (dump_problem a) (dump_problem b) = true.
 Proof. exact same_obs_equiv. Qed.
 
@@ -95,6 +107,7 @@ Theorem C09_example_empty_thm :
 Proof. exact C09_example_empty. Qed.
 
 Print Assumptions C09_roundtrip.
+Print Assumptions C09_roundtrip_any_goal_check.
 Print Assumptions C09_same_obs_equiv.
 Print Assumptions C09_empty_sections.
 Print Assumptions C09_roundtrip_refuted.
